@@ -99,7 +99,7 @@ func ToZipFiles(fs []ZipFileSpec) []modzip.File {
 var (
 	zipElemPlain    = []string{"a", "b", "c", "A", "B", "x.go", "X.go", "y.go", "main.go", "pkg", "Pkg", "doc.txt", "k", "K", "\u212a", "s", "S", "\u017f", "sk", "SK", "S\u212a", "\u017fk", "\u00e9", "\u00c9", "\u65e5\u672c", "a b", "a+b", "~x", "x~1"}
 	zipElemSpecial  = []string{"go.mod", "GO.MOD", "Go.Mod", "go.MOD", "vendor", "Vendor", "modules.txt", "LICENSE", "license", "LICENSE.txt", ".hg_archival.txt", ".git", ".hg", ".svn", ".bzr", "go.sum", "\u0261o.mod", "go.mod.bak", "g\u00f6.mod"}
-	zipElemReserved = []string{"con", "CON", "nul.txt", "NUL", "aux", "com1", "COM9.go", "lpt1", "prn.x", "con.a.b", "Aux"}
+	zipElemReserved = []string{"con", "CON", "nul.txt", "NUL", "aux", "com1", "COM9.go", "lpt1", "prn.x", "con.a.b", "Aux", "aux.tar.gz", "NUL.en.md", "com1.v1.d", "Lpt9.a.b.c", "prn..x", "conx.a.b", "aux1.tar.gz", "x.aux.gz"}
 	zipElemBad      = []string{"", ".", "..", "...", "a.", "a\\b", "a:b", "a*", "a?", "a|b", "a\"b", "<a>", "\xff", "a\xc0\x80", "\x00", "a\nb", "a;b", "'a'", "\u00a0", "\u2028"}
 	zipGoModBodies  = []string{
 		"module m\n", "module m\n\ngo 1.23\n", "module m\n\ngo 1.23.4\n", "module m\n\ngo 1.24\n", "module m\n\ngo 1.24.0\n",
@@ -632,6 +632,17 @@ func ZipHostileArchive(r *rand.Rand, m module.Version) []ZipArchEntry {
 			}
 		} else if !calm && (name == "go.mod" || name == "LICENSE") && r.Intn(3) == 0 {
 			e.Declared = uint64(zMaxGoMod) + uint64(r.Intn(3)) - 1
+		} else if !calm && r.Intn(12) == 0 {
+			// a header that declares 0 bytes for an entry with data, or bytes for an empty one
+			if r.Intn(3) != 0 {
+				if len(e.Content) == 0 {
+					e.Content = []byte("data")
+				}
+				e.Declared = 0
+			} else {
+				e.Content = nil
+				e.Declared = uint64(1 + r.Intn(5))
+			}
 		} else if !calm {
 			switch k := r.Intn(100); {
 			case k < 9:
